@@ -118,6 +118,14 @@ func crashScenario(c c03Cfg, b zzvrt.Bounds) *zzvrt.Scenario {
 						Detail: fmt.Sprintf("outcome=%q: call for %q had returned but its line is not in the target (target=%q)", x.Outcome, a, content)})
 				}
 			}
+			if x.Outcome == "" {
+				// ran to completion: the multiset of lines is the multiset of events
+				for _, ev := range all {
+					if n := strings.Count(content, lineOf[ev.payload]); n > 1 {
+						v = append(v, zzvrt.Violation{Clause: "line-duplicated", Key: key, Detail: fmt.Sprintf("the line of %q is in the target %d times", ev.payload, n)})
+					}
+				}
+			}
 			for _, l := range strings.SplitAfter(content, "\n") {
 				if l != "" && !isLine[l] {
 					v = append(v, zzvrt.Violation{Clause: "partial-or-foreign-line", Key: key, Detail: fmt.Sprintf("target holds %q which is not a whole line of any event", l)})
@@ -156,6 +164,18 @@ func init() {
 						b.Env[zzvrt.SeamFault] = 2
 						if tier == "thorough" {
 							b.Env[zzvrt.SeamTick] = 3
+						}
+						return crashScenario(c03Cfg{layout: layout, sink: sink, threads: shapes[shape]}, b)
+					})
+				}
+				if sink == "rolling" && shape == "2x2" {
+					// C03 across interval boundaries: two threads on a rolling appender while the clock crosses up
+					// to two boundaries at any point (a write in flight on a file that later rotations close)
+					register("C03", fmt.Sprintf("c03/rolling-boundaries/%s/%s", layout, shape), "qt", func(tier string) *zzvrt.Scenario {
+						b := zzvrt.Bounds{Preempt: 1, Horizon: 5000}
+						b.Env[zzvrt.SeamTick] = 2
+						if tier == "thorough" {
+							b.Preempt = 2
 						}
 						return crashScenario(c03Cfg{layout: layout, sink: sink, threads: shapes[shape]}, b)
 					})
